@@ -521,6 +521,8 @@ def run(prop, tier, seed):
     except CheckError as e:
         run_.violation("no-input", "build failed: %s" % e, dict(broken="build", detail=str(e)))
         return run_.finish()
+    if prop in ("C15", "C16", "C17", "C18") and scns:
+        mism += ops_family(run_, exe, scns[:(120 if q else 1500)], label=prop + " ops")
     finish(run_, prop, bad, mism)
     run_.cov["rule"] = "whole-program scenarios (trees, modes, bystanders, option mixes, drifted targets) run as user nobody with a private TMPDIR; each judged by the property's oracle and compared with the extracted model's run"
     if 'scns' in dir() and scns:
